@@ -47,6 +47,14 @@ CLAIMED = {
          'Trusted: Lean kernel, Mathlib, harness generators; frames assumed coherent tm objects (C03); rounding outside.',
          'Lean 4 proofs on a hand-written model (adjoint homomorphism from C01) + differential correspondence + on-object falsifier',
          'DESIGN.md section 5 C12'),
+ 'C18': ('Machine-checked theorems (Lean 4, reals) about an executable model of the fsr helpers: plane contains its three points; mirror negates exactly the local z coordinate of any frame '
+         '(anywhere in space) and is an involution; midpoint has the mean position and its relative rotation squares to the total relative rotation (Rodrigues additivity); lookAt keeps the position and is a '
+         'proper rotation with local z at the target (outside the vertical set); distance is the Euclidean metric; closeLinearGap advances by exactly |delta| along the line; IKPath has the requested length, '
+         'end points and constant increments; sphere samplers are unit; angleMod changes an angle by a multiple of 2pi. twistToGoal, closeArcGap, chain/numerical Jacobians and rotationFromVector are decided on the implementation only (sampled). '
+         'Model tied by a differential run; every relation also evaluated on the real functions.',
+         'Trusted: Lean kernel, Mathlib, harness generators; optimiser-based helpers not modelled; rounding outside.',
+         'Lean 4 proofs on a hand-written model (sympy-found linear_combination certificates) + differential correspondence + on-function falsifier',
+         'DESIGN.md section 5 C18'),
 }
 NA_REASON = 'check not built yet in this round (work in progress; DESIGN.md section 8 gives the build order)'
 
